@@ -41,20 +41,21 @@ func (p phase) String() string { return [...]string{"prep", "exec", "fallback", 
 
 // node kinds
 const (
-	kBase      = iota // K1 struct embedding *BaseNode overriding Prep/Exec/Post
-	kBaseFb           // K2 = K1 + own ExecFallback
-	kBare             // K3 bare Node implementation: no retry settings, no fallback
-	kBareRetry        // K4 bare + own GetMaxRetries/GetWait
-	kBareFb           // K5 bare + own ExecFallback
-	kFuncR            // K6 NewNode(options...) Result-style functions
-	kFuncA            // K7 NewNode(options...) Any-style functions
-	kFuncRB           // K6 via builder methods
-	kFuncAB           // K7 via builder methods
-	kFuncMix          // Result-style prep/post, Any-style exec, via builder
+	kBase         = iota // K1 struct embedding *BaseNode overriding Prep/Exec/Post
+	kBaseFb              // K2 = K1 + own ExecFallback
+	kBare                // K3 bare Node implementation: no retry settings, no fallback
+	kBareRetry           // K4 bare + own GetMaxRetries/GetWait
+	kBareFb              // K5 bare + own ExecFallback
+	kFuncR               // K6 NewNode(options...) Result-style functions
+	kFuncA               // K7 NewNode(options...) Any-style functions
+	kFuncRB              // K6 via builder methods
+	kFuncAB              // K7 via builder methods
+	kFuncMix             // Result-style prep/post, Any-style exec, via builder
+	kEmbedBuilder        // user struct embedding *NodeBuilder and overriding Prep (calls the embedded Prep, then decorates the value)
 	numKinds
 )
 
-var kindNames = [...]string{"BaseEmbed", "BaseEmbed+Fallback", "Bare", "Bare+Retry", "Bare+Fallback", "FuncResult(opts)", "FuncAny(opts)", "FuncResult(builder)", "FuncAny(builder)", "FuncMixed(builder)"}
+var kindNames = [...]string{"BaseEmbed", "BaseEmbed+Fallback", "Bare", "Bare+Retry", "Bare+Fallback", "FuncResult(opts)", "FuncAny(opts)", "FuncResult(builder)", "FuncAny(builder)", "FuncMixed(builder)", "Embed(NodeBuilder)+PrepOverride"}
 
 func kindExposesRetry(k int) bool { return k != kBare && k != kBareFb }
 func kindCanFallback(k int) bool  { return k != kBase && k != kBare && k != kBareRetry }
@@ -73,10 +74,45 @@ type spec struct {
 type flowSpec struct {
 	start *spec
 	edges map[*spec]map[flyt.Action]*spec // present key with nil value = connected to nil
+	edits []edgeEdit                      // Connect calls made DURING the current run (from inside callbacks)
+}
+
+// edgeEdit: a re-connection that takes effect once `at` answers of the run have been consumed.
+type edgeEdit struct {
+	at     int
+	from   *spec
+	action flyt.Action
+	to     *spec
+}
+
+// lookup: the edge for (cur, a) as the flow sees it after `pos` answers.
+func (f *flowSpec) lookup(cur *spec, a flyt.Action, pos int) (*spec, bool) {
+	nx, ok := f.edges[cur][a]
+	for _, e := range f.edits {
+		if e.at <= pos && e.from == cur && e.action == a {
+			nx, ok = e.to, true
+		}
+	}
+	return nx, ok
+}
+
+// foldEdits makes the re-connections of the finished run part of the table.
+func (f *flowSpec) foldEdits() {
+	for _, e := range f.edits {
+		if f.edges[e.from] == nil {
+			f.edges[e.from] = map[flyt.Action]*spec{}
+		}
+		f.edges[e.from][e.action] = e.to
+	}
+	f.edits = nil
 }
 
 func (s *spec) attempts() int {
 	if s.flow != nil {
+		// a Flow embeds *BaseNode: retries configured on the flow itself re-run the whole flow
+		if s.n > 1 {
+			return s.n
+		}
 		return 1
 	}
 	if kindExposesRetry(s.kind) {
@@ -173,7 +209,14 @@ func simulate(root *spec, store *flyt.SharedStore, answers []answer) (s *sim, ou
 
 func (s *sim) run(n *spec) (flyt.Action, error) {
 	if n.flow != nil {
-		return s.runFlow(n)
+		var a flyt.Action
+		var err error
+		for k := 0; k < n.attempts(); k++ {
+			if a, err = s.runFlow(n); err == nil {
+				break
+			}
+		}
+		return a, err
 	}
 	v := s.visits[n]
 	s.visits[n]++
@@ -220,7 +263,7 @@ func (s *sim) runFlow(f *spec) (flyt.Action, error) {
 			return "", err
 		}
 		last = a
-		nx, ok := f.flow.edges[cur][a]
+		nx, ok := f.flow.lookup(cur, a, s.pos)
 		if !ok {
 			break
 		}
@@ -491,8 +534,17 @@ func (h *H) build(s *spec) flyt.Node {
 	}
 	var n flyt.Node
 	if s.flow != nil {
-		f := flyt.NewFlow(h.build(s.flow.start))
-		h.nodes[s] = f
+		var f *flyt.Flow
+		if s.flow.start == s {
+			// a flow whose start node is the flow itself cannot be built (and would never terminate)
+			panic("spec: flow starts with itself")
+		}
+		f = flyt.NewFlow(nil)
+		h.nodes[s] = f // registered first: the flow may contain itself as a node
+		*f = *flyt.NewFlow(h.build(s.flow.start))
+		if s.n > 1 {
+			flyt.WithMaxRetries(s.n)(f.BaseNode)
+		}
 		for from, m := range s.flow.edges {
 			for a, to := range m {
 				if to == nil {
@@ -520,7 +572,7 @@ func (h *H) build(s *spec) flyt.Node {
 	case kBareFb:
 		n = &bareFbKind{bareKind{h: h, s: s}}
 	case kLog:
-		n = &logNode{BaseNode: flyt.NewBaseNode(), h: h, s: s}
+		n = &logNode{BaseNode: flyt.NewBaseNode(opts...), h: h, s: s}
 	default:
 		n = h.buildFunc(s)
 	}
@@ -528,7 +580,59 @@ func (h *H) build(s *spec) flyt.Node {
 	return n
 }
 
+// embedWrap: what the overriding Prep of the embedding kind hands to the framework.
+type embedWrap struct{ inner any }
+
+type embedKind struct {
+	*flyt.NodeBuilder
+}
+
+func (n *embedKind) Prep(ctx context.Context, st *flyt.SharedStore) (any, error) {
+	v, err := n.NodeBuilder.Prep(ctx, st)
+	if err != nil {
+		return nil, err
+	}
+	return embedWrap{inner: v}, nil
+}
+
+func (h *H) buildEmbed(s *spec) flyt.Node {
+	unwrap := func(who string, x any) any {
+		w, ok := x.(embedWrap)
+		if !ok {
+			core.Problem("%s %s received %s instead of the value the node's own Prep returned", s.id, who, descVal(x))
+			return x
+		}
+		return w.inner
+	}
+	b := flyt.NewNode().WithMaxRetries(s.n).
+		WithPrepFuncAny(func(ctx context.Context, st *flyt.SharedStore) (any, error) {
+			a := h.on(call{node: s, ph: pPrep, store: st, ctx: ctx})
+			return a.val, a.err
+		}).
+		WithExecFunc(func(ctx context.Context, p flyt.Result) (flyt.Result, error) {
+			a := h.on(call{node: s, ph: pExec, attempt: h.attemptOf(s), prepVal: unwrap("exec", p.Value()), ctx: ctx})
+			if a.err != nil {
+				return flyt.Result{}, a.err
+			}
+			return flyt.NewResult(a.val), nil
+		}).
+		WithPostFuncAny(func(ctx context.Context, st *flyt.SharedStore, p, e any) (flyt.Action, error) {
+			a := h.on(call{node: s, ph: pPost, store: st, prepVal: unwrap("post", p), execVal: e, ctx: ctx})
+			return a.action, a.err
+		})
+	if s.fb {
+		b = b.WithExecFallbackFunc(func(p any, err error) (any, error) {
+			a := h.on(call{node: s, ph: pFallback, prepVal: unwrap("fallback", p), err: err})
+			return a.val, a.err
+		})
+	}
+	return &embedKind{NodeBuilder: b}
+}
+
 func (h *H) buildFunc(s *spec) flyt.Node {
+	if s.kind == kEmbedBuilder {
+		return h.buildEmbed(s)
+	}
 	prepR := func(ctx context.Context, st *flyt.SharedStore) (flyt.Result, error) {
 		a := h.on(call{node: s, ph: pPrep, store: st, ctx: ctx})
 		if a.err != nil {
